@@ -41,7 +41,7 @@ STEPV = {None: ["default"], "ConjugateGradient": ["default", "P"], "GradientMeth
 def bounds(tier):
     return {"solver": [str(s) for s in SOLVERS], "step variants": {str(k): v for k, v in STEPV.items()}, "lamda": [0, 0.5],
             "z": ["None", "array"], "proxg": ["None", "L1Reg(0.3)", "L2Reg(0.5)", "BoxConstraint(-0.25,0.4)"],
-            "G": ["None", "dense 3xn", "FiniteDifference"], "x": ["None", "zeros", "minimiser of the smooth part", "the minimiser", "generic"],
+            "G": ["None", "dense 3xn", "FiniteDifference"], "x": ["None", "zeros", "minimiser of the smooth part", "the minimiser", "generic", "generic, read-only"],
             "A": ["Identity", "dense real 3x2", "2x2 and circulant 3x3 with the constant vector as a non-dominant eigenvector of A^H A"] + (["Multiply(diag)", "dense complex 3x2"] if tier == "thorough" else [])}
 
 
@@ -59,6 +59,8 @@ def gen_cases(tier, seed):
                             for G in (None, "dense", "fd"):
                                 for xg in (False, True):
                                     cases.append(dict(kind="lls", A=A, solver=solver, step=sv, lamda=lam, z=z, proxg=pg, G=G, x=xg))
+    for i, c in enumerate(cases):
+        c["side"] = (i % 5 == 0) and not c["x"]
     # operators with exact structure (constant vector = non-dominant eigenvector of A^H A): every solver, default steps
     for A in ("sym2", "circ3"):
         for solver in SOLVERS:
@@ -84,7 +86,7 @@ def gen_cases(tier, seed):
                 for pg in (None, "l1", "l2sq", "box"):
                     if solver == "ConjugateGradient" and pg:
                         continue
-                    for xg in ("ls", "opt", "generic"):
+                    for xg in ("ls", "opt", "generic", "readonly"):
                         cases.append(dict(kind="lls", A=A, solver=solver, step=STEPV[solver][0], lamda=lam, z=False, proxg=pg, G=None, x=xg))
     # problems far from unit scale (A -> sa*A, y -> sy*y, l1 weight scaled so that the problem is equivalent): the
     # documented minimiser is scale-equivariant, a solver with an absolute threshold is not
@@ -295,8 +297,10 @@ def run_case(case, seed):
             x_in[...] = xls.reshape(shp).astype(dt)
         elif case["x"] == "opt":
             x_in[...] = (xr.real if dt == np.float64 else xr).reshape(shp).astype(dt)     # already optimal: must stay
-        elif case["x"] == "generic":
+        elif case["x"] in ("generic", "readonly"):
             x_in[...] = (np.cos(np.arange(n) + 1.0) * 0.7).reshape(shp).astype(dt)
+        if case["x"] == "readonly":
+            x_in.setflags(write=False)      # the solution cannot be written there: an error is fine, a silent non-answer is not
         kw["x"] = x_in
     snapA = snapshot.walk(A)
     excluded = (case["solver"] == "ConjugateGradient" and kind) or (case["solver"] == "GradientMethod" and G is not None)
@@ -324,6 +328,41 @@ def run_case(case, seed):
             if not P - D <= tol + max(0.0, min(gap, 1e-9)):
                 V("objective-gap", "documented objective at the returned x is %.9g, certified optimum %.9g (gap %.3g); x=%s, x_ref=%s" % (
                     P, D, P - D, np.array2string(xv, precision=5), np.array2string(xr, precision=5)))
+    # a finished App asked again gives the same answer (run() after run())
+    if ok_shape and np.all(np.isfinite(xv)):
+        try:
+            x_again = np.asarray(app.run()).ravel().astype(complex)
+            if x_again.shape != xv.shape or not np.abs(x_again - xv).max() <= 1e-10 * max(1.0, np.abs(xv).max()):
+                V("second-run-differs", "run() called a second time on the finished app returned a different x (max diff %.3g)" % (
+                    float(np.abs(x_again - xv).max()) if x_again.shape == xv.shape else float("inf")), "second run()")
+        except Exception as e:
+            V("second-run-differs", "run() called a second time raised %s: %s" % (type(e).__name__, str(e)[:100]), "second run()")
+    # options that must not change the result: progress bar on, objective values recorded
+    if ok_shape and np.all(np.isfinite(xv)) and case.get("side", False):
+        import contextlib, io
+        A2, Am2, y2, z2, G2, Gm2, shp2, dt2 = setup(case, seed)
+        kw2 = dict(kw)
+        kw2["show_pbar"] = True
+        kw2["save_objective_values"] = kind is None     # (with proxg the objective needs g, documented)
+        if kind:
+            kw2["proxg"] = make_prox(kind, shp if G is None else list(G.oshape))
+        if G2 is not None:
+            kw2["G"] = G2
+        if zz is not None:
+            kw2["z"] = z2
+        kw2.pop("x", None)
+        kw2.pop("P", None)
+        if case.get("scale"):
+            pass
+        else:
+            np.random.seed((seed + 12345) % 2 ** 32)
+            with contextlib.redirect_stderr(io.StringIO()), contextlib.redirect_stdout(io.StringIO()):
+                app2 = sp.app.LinearLeastSquares(A2, y2, **kw2)
+                xs = np.asarray(app2.run()).ravel().astype(complex)
+            if "P" not in kw and (x_in is None or not np.any(x_in)):
+                if xs.shape != xv.shape or not np.abs(xs - xv).max() <= 1e-9 * max(1.0, np.abs(xv).max()):
+                    V("side-option-changes-result", "show_pbar=True, save_objective_values=True changed the returned x by %.3g" % (
+                        float(np.abs(xs - xv).max()) if xs.shape == xv.shape else float("inf")), "side options")
     if x_in is not None and x is not x_in:
         V("returns-callers-x", "the caller's x buffer is not the returned array", "x buffer")
     if y.tobytes() != y0.tobytes():
